@@ -35,6 +35,38 @@ func (nd *node) addChild(name string, child *node) {
 	nd.children[name] = child
 }
 
+// errNotFound returns the error for a path that is not in the index: "not a directory" when the
+// first existing ancestor of absPath is not a directory (as the kernel answers), notFound otherwise.
+// Windows keeps its own error values.
+func (vfs *OrefaFS) errNotFound(absPath string, notFound error) error {
+	if vfs.OSType() == avfs.OsWindows {
+		return notFound
+	}
+
+	vfs.mu.RLock()
+	defer vfs.mu.RUnlock()
+
+	dirName := absPath
+
+	for {
+		parent, ok := vfs.nodes[dirName]
+		if ok {
+			if dirName != absPath && !parent.mode.IsDir() {
+				return vfs.err.NotADirectory
+			}
+
+			return notFound
+		}
+
+		up, _ := avfs.SplitAbs(vfs, dirName)
+		if up == dirName {
+			return notFound
+		}
+
+		dirName = up
+	}
+}
+
 // createDir creates a new directory.
 func (vfs *OrefaFS) createDir(parent *node, absPath, fileName string, perm fs.FileMode) *node {
 	mode := vfs.dirMode | (perm & avfs.FileModeMask &^ vfs.UMask())
